@@ -41,6 +41,9 @@ func Generate(r *rand.Rand, profile string) *Scenario {
 	if profile == "ext" {
 		return generateExt(r)
 	}
+	if profile == "quota" {
+		return generateQuotaTree(r)
+	}
 	if profile == "bindfail" || profile == "overhead" || profile == "nested" || profile == "sharers" {
 		return generateTight(r, profile)
 	}
@@ -1238,6 +1241,78 @@ func generateExt(r *rand.Rand) *Scenario {
 				}
 			}
 		}
+	}
+	sc.Normalize()
+	return sc
+}
+
+
+// generateQuotaTree: queue trees whose quotas do not add up - departments with zero quota and zero over-quota
+// weight in one, two or all three resources (so that nothing, or only a rest, reaches them), children whose quotas
+// over-subscribe the parent (valid: the queue webhook does not reject it), limits below quotas, two queue
+// priorities, requests in gpu, cpu and memory from pending and running single-pod jobs. What is judged is the
+// fair-share state of the freshly opened session at every level of the tree; one cycle.
+func generateQuotaTree(r *rand.Rand) *Scenario {
+	pick := func(vs ...int) int { return vs[r.Intn(len(vs))] }
+	chance := func(p float64) bool { return r.Float64() < p }
+	sc := &Scenario{Class: "quota"}
+	sc.Cfg = Cfg{Placement: []string{"binpack", "spread"}[r.Intn(2)], Consolidation: pick(0, 1), Signatures: pick(0, 1),
+		ConsReclaim: pick(0, 1), SatMult: 1000, Cycles: 1, Env: "closed", FullHier: 1}
+	nn := pick(1, 2, 2, 3)
+	g := pick(2, 2, 4)
+	for i := 0; i < nn; i++ {
+		sc.Nodes = append(sc.Nodes, Node{Name: fmt.Sprintf("n%d", i+1), Cpu: pick(8000, 16000), Mem: pick(16000, 32000), Pods: 110, Gpus: g, GpuMem: 40000, Ready: 1})
+	}
+	nd := pick(2, 2, 3)
+	for i := 0; i < nd; i++ {
+		q := Queue{Name: fmt.Sprintf("d%d", i+1), Parent: 0, Prio: pick(100, 100, 200), GQ: pick(0, 0, 1000, 2000, -1), GL: pick(-1, -1, -1, 1000, 3000),
+			GW: pick(0, 0, 1, 2), CQ: pick(0, 0, 2000, 4000, -1), CL: pick(-1, -1, 4000), MQ: pick(0, 0, 4000, 8000, -1), ML: pick(-1, -1, 8000)}
+		if chance(0.3) {
+			// a department that gets nothing at all
+			q.GQ, q.CQ, q.MQ, q.GW = 0, 0, 0, 0
+		}
+		sc.Queues = append(sc.Queues, q)
+	}
+	parents := nd
+	if chance(0.3) {
+		sc.Queues = append(sc.Queues, Queue{Name: "m1", Parent: 1 + r.Intn(nd), Prio: 100, GQ: pick(0, 1000, 2000), GL: -1, GW: pick(0, 1, 2),
+			CQ: pick(0, 2000, -1), CL: -1, MQ: pick(0, 4000, -1), ML: -1})
+		parents++
+	}
+	var leaves []int
+	for i := 0; i < pick(2, 3, 4, 5); i++ {
+		q := Queue{Name: fmt.Sprintf("q%d", i+1), Parent: 1 + r.Intn(parents), Prio: pick(100, 100, 200), GQ: pick(0, 500, 1000, 2000, 3000), GL: pick(-1, -1, -1, 500, 2000),
+			GW: pick(0, 1, 1, 2, 3), CQ: pick(0, 1000, 2000, 6000, -1), CL: pick(-1, -1, 1500, 4000), MQ: pick(0, 2000, 4000, 12000, -1), ML: pick(-1, -1, 3000)}
+		sc.Queues = append(sc.Queues, q)
+		leaves = append(leaves, len(sc.Queues))
+	}
+	freeG := make([]int, nn)
+	freeC := make([]int, nn)
+	freeM := make([]int, nn)
+	for i := range sc.Nodes {
+		freeG[i], freeC[i], freeM[i] = sc.Nodes[i].Gpus, sc.Nodes[i].Cpu, sc.Nodes[i].Mem
+	}
+	nj := pick(3, 4, 5, 6, 7)
+	for j := 0; j < nj; j++ {
+		gpu := pick(0, 1, 1, 1, 2)
+		cpu := pick(500, 1000, 2000, 3000)
+		mem := pick(500, 2000, 4000, 6000)
+		job := Job{Name: fmt.Sprintf("j%d", j+1), Queue: leaves[r.Intn(len(leaves))], Prio: pick(50, 50, 75), Preempt: 1, Min: 1, Age: 600 + 60*r.Intn(60), LastStart: -1}
+		p := Pod{Name: fmt.Sprintf("j%d-p1", j+1), Job: j + 1, Cpu: cpu, Mem: mem, Gpu: gpu, Phase: "P"}
+		if chance(0.4) {
+			for _, ni := range r.Perm(nn) {
+				if freeG[ni] >= gpu && freeC[ni] >= cpu && freeM[ni] >= mem {
+					freeG[ni] -= gpu
+					freeC[ni] -= cpu
+					freeM[ni] -= mem
+					p.Phase, p.Node = "R", ni+1
+					job.LastStart = 36000
+					break
+				}
+			}
+		}
+		sc.Jobs = append(sc.Jobs, job)
+		sc.Pods = append(sc.Pods, p)
 	}
 	sc.Normalize()
 	return sc
